@@ -36,6 +36,7 @@ def run(ck):
     ck.rule("R2", "forward and reverse maps are written together on the allocation path, mirrored", floor=5)
     ck.rule("R3", "a recorded address/base is returned before anything is allocated", floor=2)
     ck.rule("R4", "the cursor advances on every allocation", floor=2)
+    ck.rule("R5", "the address recorded for a (library, function) key that was not known comes from the cursor only", floor=1)
 
     base_fn = meths.get("lib_get_add_base")
     func_fn = meths.get("lib_get_add_func")
@@ -141,3 +142,25 @@ def run(ck):
         if not bcfg.must_pass(lambda nd: nd in news, targets=[bcfg.exit.id], from_node=r.id)[bcfg.exit.id]:
             ok = False
     ck.ob("R4", "lib_get_add_base:region-advances", ok, m.where(base_fn), "a new library region is registered without advancing the region cursor")
+
+    # ---------------------------------------------------------------- R5 a new key never receives an address taken from another table
+    from sa.astutil import Resolver
+    fn = m.func("libimp.lib_get_add_func")
+    res = Resolver(fn)
+    cursor = None
+    for n in walk_body(fn):
+        if isinstance(n, ast.AugAssign) and isinstance(n.op, ast.Add) and isinstance(n.target, ast.Subscript) and dotted(n.target.value) and dotted(n.target.value).startswith("self."):
+            cursor = norm(n.target)
+    ck.need(cursor is not None, "libimp.lib_get_add_func: the stub cursor (augmented subscript of a self table) was not found")
+    k5 = 0
+    for n in walk_body(fn):
+        if isinstance(n, ast.Assign) and len(n.targets) == 1 and isinstance(n.targets[0], ast.Subscript) and norm(n.targets[0]).startswith("self.lib_imp2ad["):
+            k5 += 1
+            v = n.value
+            srcs = [norm(v)] if not isinstance(v, ast.Name) else [norm(d) for d in res.all_defs(v.id)] or ["<%s: no visible definition>" % v.id]
+            bad = [t for t in srcs if t != cursor]
+            ck.ob("R5", "libimp.lib_get_add_func:recorded-address-is-fresh", not bad, m.where(n),
+                  "a (library, function) key that was not in the table is given an address read from %s instead of the cursor `%s`: two different "
+                  "imports whose derived names coincide share one stub" % (bad, cursor))
+    ck.need(k5 >= 1, "libimp.lib_get_add_func: the store into lib_imp2ad was not found")
+
